@@ -17,7 +17,6 @@ import (
 	"google.golang.org/protobuf/runtime/protoiface"
 
 	"cosmossdk.io/core/event"
-	"cosmossdk.io/log"
 	sdkmath "cosmossdk.io/math"
 	"github.com/cosmos/cosmos-sdk/runtime"
 	sdk "github.com/cosmos/cosmos-sdk/types"
@@ -28,6 +27,7 @@ import (
 	channeltypes "github.com/cosmos/ibc-go/v8/modules/core/04-channel/types"
 	porttypes "github.com/cosmos/ibc-go/v8/modules/core/05-port/types"
 	ibcexported "github.com/cosmos/ibc-go/v8/modules/core/exported"
+	"verifharness/app"
 
 	warpkeeper "github.com/bcp-innovations/hyperlane-cosmos/x/warp/keeper"
 	warptypes "github.com/bcp-innovations/hyperlane-cosmos/x/warp/types"
@@ -43,8 +43,8 @@ import (
 	"github.com/noble-assets/orbiter/v2/keeper"
 	dispatchercomp "github.com/noble-assets/orbiter/v2/keeper/component/dispatcher"
 	forwardercomp "github.com/noble-assets/orbiter/v2/keeper/component/forwarder"
-	forwardertypes "github.com/noble-assets/orbiter/v2/types/component/forwarder"
 	orbtypes "github.com/noble-assets/orbiter/v2/types"
+	forwardertypes "github.com/noble-assets/orbiter/v2/types/component/forwarder"
 	actiontypes "github.com/noble-assets/orbiter/v2/types/controller/action"
 	forwardingtypes "github.com/noble-assets/orbiter/v2/types/controller/forwarding"
 	"github.com/noble-assets/orbiter/v2/types/core"
@@ -256,7 +256,7 @@ func (s *appState) ensureHW() error {
 	h.swap = swapRule{num: sdkmath.NewInt(1), den: sdkmath.NewInt(1), denom: "uother", pool: sdk.AccAddress([]byte("swap-pool-account-01"))}
 	bank := bankDec{h: h, Keeper: a.BankKeeper}
 	evs := eventDec{h: h}
-	logger := log.NewNopLogger()
+	logger := app.Logger()
 	k := keeper.NewKeeper(
 		a.OrbiterKeeper.Codec(),
 		authcodec.NewBech32Codec("noble"),
